@@ -344,8 +344,9 @@ pub fn run_program(ctx: &Arc<Ctx>) {
     let mut hs = vec![];
     for (c, ops) in prog.callers.iter().enumerate().skip(1) {
         let (ctx2, ops2) = (ctx.clone(), ops.clone());
-        hs.push(rt::thread::spawn(move || { let mut l = Local::default(); for o in &ops2 { exec_op(&ctx2, o, c, false, &mut l); } }));
+        hs.push(rt::thread::spawn(move || { desync::verif::log("api", "CALLER", c, String::new()); let mut l = Local::default(); for o in &ops2 { exec_op(&ctx2, o, c, false, &mut l); } }));
     }
+    desync::verif::log("api", "CALLER", 0, String::new());
     if let Some(ops) = prog.callers.get(0) { let mut l = Local::default(); for o in ops { exec_op(ctx, o, 0, false, &mut l); } }
     for h in hs { h.join().unwrap(); }
     desync::verif::log("api", "END", 0, String::new());
